@@ -1,12 +1,59 @@
 // Command translator regenerates coq/Gen/SyncTable.v from the Go source of the casbin
-// SyncedEnforcer (DESIGN.md Appendix B).  For every method declared with receiver
-// *SyncedEnforcer it extracts the ordered critical sections on the RWMutex e.m (SSA control
-// flow, all paths), and for each section the may-access sets of shared memory of everything
-// called inside it (transitive, interface calls resolved to the implementations in the module,
-// function values resolved by signature), classified plain / synchronised.
+// SyncedEnforcer (DESIGN.md Appendix B).  It is part of the TRUSTED BASE of C12/C13: its
+// soundness is not proved.
 //
-// The analysis is part of the trusted base.  It is conservative in the places listed in
-// README.md; sites it cannot prove local can be removed only through benign.txt.
+// What it does.  For every method DECLARED with receiver *SyncedEnforcer (the wrapped API) and
+// for every goroutine body such a method starts:
+//   - the ordered critical sections on e.m, from the SSA control-flow graph, along every path:
+//     Lock/RLock ... Unlock/RUnlock incl. deferred unlocks; all paths must be prefixes of the
+//     longest one, every acquired lock must be released before return, no acquisition while
+//     holding, no lock state change inside a loop, no call of something that itself acquires
+//     e.m while holding it -- otherwise the wrapper is emitted as Irregular (table_ok fails);
+//     code outside any section that touches shared memory forms a lock-free (NoLock) section;
+//   - per section the abstract locations (Type.field, package variables, captured variables,
+//     "[]" = elements of a slice / map, "{}" = contents of a sync.Map or channel) that MAY be
+//     accessed inside it by the wrapper and, transitively, by everything it calls:
+//     plain reads / plain writes / synchronised reads / synchronised writes (sync.Map,
+//     sync/atomic, channel operations, accesses made while a callee holds its own
+//     sync.(RW)Mutex in write mode -- reads also in read mode; a location bracketed by two
+//     different mutexes is demoted to plain);
+//   - the shape of the auto-load protocol (non-blocking send in Stop, CompareAndSwap and drain
+//     in Start, flag cleared by the loader) as boolean constants;
+//   - the exception labels (F19 for multi-section wrappers, F20 for read sections with
+//     synchronised writes): dumb labels, re-checked against the findings' signatures in Sync.v.
+//
+// The may-access analysis (analysis.go).  Function summaries over SSA, iterated to a fixpoint.
+// A pointer-carrying value is abstracted by where the object it points to may live: allocated
+// in this frame (or returned fresh by a callee) / reachable from parameter i / from free
+// variable j / shared, each with a depth 0 (the object), 1 (stored directly in it), 2 (anything
+// below).  An access whose address may be non-local is recorded with its roots and mapped
+// through call sites; at a wrapper only roots reachable from the receiver, globals and captured
+// variables count as shared -- the other arguments of an API call belong to the caller.
+// Calls: static callees; interface calls to EVERY implementation in the module (test doubles
+// *Mock and /mocks excluded, listed in the JSON dump); function values through parameters,
+// closure bindings and local variables when visible, else EVERY address-taken function of the
+// same signature with its captured variables treated as shared; callbacks handed to code that
+// is not analysed are taken to be invoked there.
+//
+// Conservative choices / known gaps (all in the trusted base):
+//   - flow-insensitive, context-insensitive summaries; objects below depth 2 are merged, so a
+//     deep copy cannot be proved local (=> benign.txt entries for LoadPolicy phase 1);
+//   - the standard library and govaluate are not analysed: their functions are assumed not to
+//     write through their arguments, except sort.*, copy, append, delete, clear and
+//     pointer-receiver methods of types not known to be thread-safe (recorded as plain writes
+//     to the receiver); sync.Map / list / atomic.Value accessors return something reachable
+//     from the container, everything else returns a fresh value; evaluating or compiling a
+//     govaluate expression is assumed not to write to an expression shared between goroutines,
+//     and the ExpressionFunction / Parameters callbacks are attributed to that call;
+//   - implementations supplied by the user behind interfaces (adapter, watcher, dispatcher,
+//     logger, role manager) and user functions are assumed pure and to return fresh values;
+//   - values that only cycle through phi nodes / recursive stores may be under-approximated on
+//     the first visit of a cycle (the fixpoint over summaries recovers inter-procedural cycles,
+//     not intra-procedural ones);
+//   - reflection, unsafe and cgo are not modelled (not used on these paths).
+//
+// Sites the analysis cannot prove local can be removed only through benign.txt, by naming
+// function | location | via-callee | reason; an entry that matches nothing is a fatal error.
 package main
 
 import (
